@@ -56,6 +56,8 @@ func init() {
 			c.ruleFinalisationOrder()
 			c.ruleSetChangeOrder()
 			c.ruleWriteDirtyBatch()
+			c.ruleChildPersist()
+			c.min("R-CHILDPERSIST", 1)
 			c.min("R-ORDER", 10)
 			c.min("R-ORDER/batch", 3)
 		})
